@@ -94,6 +94,50 @@ def run(ctx):
         else:
             out = outcome(lambda: cp.parse(txt), dump_pred)
             cases.append(({'entry': entry, 'text': txt}, out, None, dumps([S('mkpred'), to_wire(r)]), 'valid'))
+    # associativity / precedence chains: every binary operator in unparenthesised chains of 3..4 operands, nested to the
+    # left and to the right, and every adjacent pair of precedence levels mixed (minimal parentheses only)
+    NUMOPS, BOOLOPS, RELOPS = ['+', '-', '*', '/', '**'], ['and', 'or', 'implies', 'iff'], ['=', '!=', '<', '<=', '>', '>=', 'in']
+    natoms = [('field', ('this',), 'x'), ('field', ('this',), 'y'), int_lit(2), ('field', ('var', 'A'), 'z'), ('index', ('field', ('this',), 'xs'), int_lit(0))]
+    batoms = [('field', ('this',), 'b'), ('field', ('this',), 'c'), ('lit', 'True', True), ('field', ('field', ('this',), 'm'), 'b')]
+    chains = []
+    for ops, atoms, want in ((NUMOPS, natoms, NUM), (BOOLOPS, batoms, BOOL)):
+        for o1 in ops:
+            for o2 in ops:
+                a, b, c, d = rng.sample(atoms, 4)
+                chains.append((('bin', o2, ('bin', o1, a, b), c), want))
+                chains.append((('bin', o1, a, ('bin', o2, b, c)), want))
+                chains.append((('bin', o2, ('bin', o1, ('bin', o2, a, b), c), d), want))
+                chains.append((('bin', o1, a, ('bin', o2, b, ('bin', o1, c, d))), want))
+                if want == NUM:
+                    chains.append((('bin', o2, ('un', '-', ('bin', o1, a, b)), c), want))
+                    chains.append((('bin', o1, ('un', '-', a), ('bin', o2, ('un', '-', b), c)), want))
+                else:
+                    chains.append((('bin', o2, ('un', 'not', ('bin', o1, a, b)), c), want))
+                    chains.append((('bin', o1, ('un', 'not', a), ('bin', o2, ('un', 'not', b), c)), want))
+    for rel in RELOPS:
+        for o in NUMOPS:
+            a, b, c = rng.sample(natoms, 3)
+            rhs = ('bin', o, b, c) if rel != 'in' else ('set', [('bin', o, b, c)])
+            chains.append((('bin', rel, ('bin', o, a, b), c if rel != 'in' else ('set', [c])), BOOL))
+            chains.append((('bin', rel, a, rhs), BOOL))
+        for o in BOOLOPS:
+            a, b = rng.sample(natoms, 2)
+            p_, q_ = rng.sample(batoms, 2)
+            r1 = ('bin', rel, a, b if rel != 'in' else ('set', [b]))
+            chains.append((('bin', o, r1, p_), BOOL))
+            chains.append((('bin', o, p_, r1), BOOL))
+            chains.append((('bin', o, ('un', 'not', r1), q_), BOOL))
+            chains.append((('un', 'not', ('bin', o, r1, q_)), BOOL))
+    for r, want in chains:
+        try:
+            txt = render(r, rng, 'min')
+        except ValueError:
+            rejects += 1
+            continue
+        if rng.random() < 0.3:
+            txt = relayout(txt, rng)
+        out = outcome(lambda: ep.parse(txt), dump_expr)
+        cases.append(({'entry': 'expression', 'text': txt, 'family': 'chain'}, out, dumps([S('parse'), S('expression'), txt]), dumps([S('build'), to_wire(r)]), 'valid'))
     pg = PropGen(rng, max_depth=2)
     props = []
     for _ in range(n // 3):
